@@ -101,6 +101,13 @@ fn gen_c12(tier: &str, r: &Rng, o: &mut Out<'_>) {
         let p = rand_packet(r);
         o.d(&format!("pkt {}", hex(&p)));
     }
+    // value types: Pid::new / TryFrom<u16>, ContinuityCounter::new (every argument value)
+    for v in 0..=65535u32 {
+        if tier != "thorough" && v > 0x2100 && v % 251 != 0 && v < 65500 { continue; }
+        o.d(&format!("pidtry {}", v));
+        o.d(&format!("pidnew {}", v));
+    }
+    for v in 0..=255u32 { o.d(&format!("ccnew {}", v)); }
     // a bad sync byte is refused
     let mut p = rand_packet(r);
     p[0] = 0x46;
@@ -546,6 +553,14 @@ fn gen_c16(tier: &str, r: &Rng, o: &mut Out<'_>) {
         if k % 5 == 4 { let l = b.len(); b.truncate(l - 1 - r.below(6) as usize); }
         o.d(&format!("pmt {}", hex(&b)));
     }
+    // section common header (every value of bytes 1 and 2, wrong lengths panic as documented) and
+    // table syntax header (every value of the version / current_next byte)
+    for b1 in 0..256usize { for &b2 in [0u8, 1, 0x7f, 0x80, 0xfd, 0xff].iter() { o.d(&format!("sch {:02x}{:02x}{:02x}", r.byte(), b1, b2)); } }
+    for b2 in 0..256usize { o.d(&format!("sch {:02x}{:02x}{:02x}", r.byte(), r.byte(), b2)); }
+    for len in [0usize, 1, 2, 4, 5] { o.d(&format!("sch {}", hex(&r.bytes(len)))); }
+    for b2 in 0..256usize { let mut b = r.bytes(5 + r.below(4) as usize); b[2] = b2 as u8; o.d(&format!("tsh {}", hex(&b))); }
+    for len in 0..5usize { o.d(&format!("tsh {}", hex(&r.bytes(len)))); }
+    for _ in 0..500 { o.d(&format!("tsh {}", hex(&r.bytes(5)))); }
     // every body length 0..=40 with boundary-valued length fields
     for len in 0..=40usize {
         for &pil in [0usize, 1, len.saturating_sub(5), len.saturating_sub(4), len.saturating_sub(3), 4095].iter() {
